@@ -17,7 +17,9 @@ def txt(t):
 
 
 def rsp_content(s):
-    return "rsp-e%d-v%d" % (s["id"], s.get("rspver", 1))
+    # later versions are shorter: a response file written over a leftover one must not keep the old tail
+    v = s.get("rspver", 1)
+    return "rsp-e%d-v%d" % (s["id"], v) + "x" * (5 * max(0, 3 - v))
 
 
 def rsp_path(s):
